@@ -17,12 +17,12 @@ PROBES = []
 _seen = {}
 
 
-def P(entry, opts, setup, call, tier="quick"):
+def P(entry, opts, setup, call, tier="quick", also=()):
     base = entry.split(":")[1] + "[" + opts + "]"
     _seen[base] = _seen.get(base, 0) + 1
     pid = base if _seen[base] == 1 else "%s#%d" % (base, _seen[base])
     PROBES.append({"id": pid, "entry": entry, "opts": opts, "setup": setup.strip() + "\n",
-                   "call": call.strip() + "\n", "tier": tier})
+                   "call": call.strip() + "\n", "tier": tier, "also": list(also)})
 
 
 # =============================================================================================
@@ -83,7 +83,7 @@ for _name in ("apply_mean_norm_trend", "remove_trend_norm_mean"):
     P(NT + _name, "stacked", "pos = A(rng.uniform(0, 10, (2, 14)))\nfield = A(np.exp(rng.normal(size=(2, 14))))", _f + "(pos, field, mean=1.5, trend=0.5, stacked=True)")
     P(NT + _name, "stacked list", "pos = A(rng.uniform(0, 10, (2, 14)))\nfield = [A(np.exp(rng.normal(size=14))), A(np.exp(rng.normal(size=14)))]", _f + "(pos, field, mean=1.5, trend=0.5, stacked=True, check_shape=False)")
     P(NT + _name, "structured", "pos = (A(np.arange(5.0)), A(np.arange(4.0)))\nfield = A(np.exp(rng.normal(size=(5, 4))))", _f + "(pos, field, mean=1.5, mesh_type='structured')")
-    P(NT + _name, "vector", "pos = A(rng.uniform(0, 10, (2, 14)))\nfield = A(rng.normal(size=(2, 14)))\nmean = A([1.0, 2.0])", _f + "(pos, field, mean=mean, value_type='vector')")
+    P(NT + _name, "vector", "pos = A(rng.uniform(0, 10, (2, 14)))\nfield = A(rng.normal(size=(2, 14)))\nmean = A([1.0, 2.0])", _f + "(pos, field, mean=mean, value_type='vector', check_shape=False)")
     P(NT + _name, "nothing set", "pos = A(rng.uniform(0, 10, (2, 14)))\n" + _fld, _f + "(pos, field)")
 P(NT + "remove_trend_norm_mean", "fit_normalizer", "pos = A(rng.uniform(0, 10, (2, 14)))\nfield = A(np.exp(rng.normal(size=14)))", "gs.normalizer.remove_trend_norm_mean(pos, field, normalizer=gs.normalizer.BoxCox, fit_normalizer=True)")
 
@@ -94,8 +94,8 @@ for _cls in ("Normalizer", "LogNormal", "BoxCox", "BoxCoxShift", "YeoJohnson", "
         _mk += "_n.lmbda = 0.5\n"
     _d = "data = A(np.exp(rng.normal(size=(3, 5))))\n"
     for _m in ("normalize", "denormalize", "derivative", "loglikelihood", "likelihood", "kernel_loglikelihood"):
-        P(NB + _m, _cls, _mk + _d, "_n.%s(data)" % _m, tier="quick" if _m in ("normalize", "denormalize", "derivative") else "thorough")
-    P(NB + _m, _cls + ",nan", _mk + _d + "data[0, 0] = np.nan", "_n.normalize(data); _n.denormalize(data)")
+        P(NB + _m, _cls, _mk + _d, "_n.%s(data)" % _m, tier="quick")
+    P(NB + "normalize", _cls + ",nan", _mk + _d + "data[0, 0] = np.nan", "_n.normalize(data); _n.denormalize(data)")
     if _cls not in ("Normalizer", "LogNormal"):
         P(NB + "fit", _cls, _mk + _d, "_n.fit(data)")
 P(NB + "__init__", "data given", "data = A(np.exp(rng.normal(size=20)))", "gs.normalizer.BoxCox(data)")
@@ -107,7 +107,7 @@ TA = "transform/array.py:"
 _F = "field = A(rng.normal(size=(4, 5)))\n"
 P(TA + "array_discrete", "arithmetic", _F + "values = A([3.0, 1.0, 2.0])", "gs.transform.array_discrete(field, values)")
 P(TA + "array_discrete", "equal", _F + "values = A([1.0, 2.0, 3.0])", "gs.transform.array_discrete(field, values, thresholds='equal')")
-P(TA + "array_discrete", "thresholds", _F + "values = A([1.0, 2.0, 3.0])\nthresholds = A([-0.5, 0.5])", "gs.transform.array_discrete(field, values, thresholds)")
+P(TA + "array_discrete", "thresholds", _F + "values = A([1.0, 2.0, 3.0])", "gs.transform.array_discrete(field, values, [-0.5, 0.5])")
 P(TA + "array_boxcox", "lmbda", _F, "gs.transform.array_boxcox(field, lmbda=0.5, shift=3)")
 P(TA + "array_boxcox", "lmbda=0", _F, "gs.transform.array_boxcox(field, lmbda=0)")
 P(TA + "array_zinnharvey", "high", _F, "gs.transform.array_zinnharvey(field)")
@@ -158,8 +158,8 @@ for _t in ("binary", "zinnharvey", "normal_to_lognormal", "normal_force_moments"
     P("field/base.py:Field.transform", _t + ",process=False", _SRF, "_srf.transform('%s'%s, store='t')" % (_t, _kw))
 P(TF + "apply_function", "chain of stores", _SRF + "returned_a = _srf.transform('normal_to_lognormal', store='a')\nreturned_b = _srf.transform('binary', store='b')",
   "_srf.transform('zinnharvey', field='field', store='c'); _srf.transform('function', function=np.exp, field='a', store='d')")
-P(TF + "apply_function", "discrete with array arguments", _SRF + "values = A([1.0, 2.0, 3.0])\nthresholds = A([-0.5, 0.5])",
-  "gs.transform.discrete(_srf, values, thresholds, store='d', process=True)")
+P(TF + "apply_function", "discrete with array arguments", _SRF + "values = A([1.0, 2.0, 3.0])",
+  "gs.transform.discrete(_srf, values, [-0.5, 0.5], store='d', process=True)")
 
 # =============================================================================================
 # Field / SRF / CondSRF
@@ -190,11 +190,18 @@ P(FB + "set_pos", "structured", _FLD % ("None", "None", "None") + "pos = (A(np.a
 P(FB + "pre_pos", "with model, rotation", "_fld = gs.field.Field(gs.Gaussian(dim=2, anis=0.5, angles=0.4))\npos = A(rng.uniform(0, 10, (2, 14)))", "_fld.pre_pos(pos)")
 P(FB + "pre_pos", "latlon model", "_fld = gs.field.Field(gs.Gaussian(latlon=True, geo_scale=gs.KM_SCALE))\npos = A(np.stack([rng.uniform(-60, 60, 14), rng.uniform(-120, 120, 14)]))", "_fld.pre_pos(pos)")
 P(FB + "__init__", "array mean/trend", "mean = A([1.0, 2.0])\ntrend = A([0.5, 0.1])", "gs.field.Field(dim=2, value_type='vector', mean=mean, trend=trend)")
-P(FB + "mean.setter", "array", "mean = A([1.0, 2.0])\n_fld = gs.field.Field(dim=2, value_type='vector')", "_fld.mean = mean; _fld.trend = mean")
+P(FB + "mean.setter", "array", "mean = A([1.0, 2.0])\n_fld = gs.field.Field(dim=2, value_type='vector')", "_fld.mean = mean; _fld.trend = mean", also=[FB + "trend.setter"])
 P(FB + "__getitem__", "by reference, then regenerate", "_srf = gs.SRF(gs.Gaussian(dim=2), seed=1, mode_no=20)\npos = A(rng.uniform(0, 10, (2, 14)))\nreturned_f = _srf(pos)\nstored_f = _srf['field']\nstored_all = _srf[['field']]",
   "_srf(seed=5); _srf(pos, seed=7, store='other'); del _srf['other']")
+P(FB + "pos.setter", "array, unstructured + structured", _FLD % ("None", "None", "None") + "pos = A(rng.uniform(0, 10, (2, 14)))\npos_s = (A(np.arange(5.0)), A(np.arange(4.0)))",
+  "_fld.pos = pos; _fld.mesh_type = 'structured'; _fld.pos = pos_s", also=[FB + "mesh_type.setter"])
+P("field/cond_srf.py:CondSRF.pos.setter", "array", "cond_pos = A(rng.uniform(0, 10, (2, 7)))\ncond_val = A(rng.normal(1, 0.3, 7))\n_k = gs.krige.Krige(gs.Gaussian(dim=2, len_scale=3), cond_pos, cond_val)\n_cs = gs.CondSRF(_k, seed=4, mode_no=20)\npos = A(rng.uniform(0, 10, (2, 9)))",
+  "_cs.pos = pos; _cs.mean = 2.0; _cs.trend = 1.0; _cs()", also=["field/cond_srf.py:CondSRF.mean.setter", "field/cond_srf.py:CondSRF.trend.setter"])
 P(FB + "mesh", "meshio centroids", "import meshio as _mio\n_pts = A(rng.uniform(0, 5, (8, 2)))\n_cells = [('triangle', np.array([[0, 1, 2], [2, 3, 4], [4, 5, 6]]))]\n_mesh = _mio.Mesh(_pts, _cells)\npoints_of_mesh = _mesh.points\n_srf = gs.SRF(gs.Gaussian(dim=2), mean=1.0, seed=1, mode_no=20)",
   "_srf.mesh(_mesh, points='centroids', name='c'); _srf.mesh(_mesh, points='points', name='p')")
+
+P(FB + "mesh", "base Field with field=arr", "import meshio as _mio\n_pts = A(rng.uniform(0, 5, (8, 2)))\n_cells = [('triangle', np.array([[0, 1, 2], [2, 3, 4], [4, 5, 6]]))]\n_mesh = _mio.Mesh(_pts, _cells)\n_fld = gs.field.Field(dim=2, mean=1.5)\nfield = A(rng.normal(size=8))",
+  "_fld.mesh(_mesh, points='points', name='p', field=field)", also=["field/tools.py:generate_on_mesh"])
 
 S = "field/srf.py:SRF."
 _MODELS = {
@@ -218,6 +225,9 @@ P(G + "RandMeth.__call__", "", "_g = gs.field.generator.RandMeth(gs.Gaussian(dim
 P(G + "IncomprRandMeth.__call__", "", "_g = gs.field.generator.IncomprRandMeth(gs.Gaussian(dim=2, nugget=0.1), mode_no=20, seed=1)\n" + _ISO, "_g(pos)")
 P(G + "Fourier.__call__", "", "period = A([10.0, 12.0])\nmode_no = np.array([8, 8])\n_g = gs.field.generator.Fourier(gs.Gaussian(dim=2, nugget=0.1), period, mode_no=mode_no, seed=1)\n" + _ISO, "_g(pos)")
 P(G + "Fourier.update", "period/mode_no arrays", "period = A([10.0, 12.0])\nmode_no = np.array([8, 8])\n_g = gs.field.generator.Fourier(gs.Gaussian(dim=2), A([5.0, 5.0]), mode_no=[4, 4], seed=1)", "_g.update(period=period, mode_no=mode_no)")
+P(G + "Fourier.__init__", "period / mode_no arrays + setters", "period = A([10.0, 12.0])\nmode_no = np.array([8, 8])\nperiod2 = A([9.0, 9.0])\nmode_no2 = np.array([4, 6])",
+  "_g = gs.field.generator.Fourier(gs.Gaussian(dim=2), period, mode_no=mode_no, seed=1); _g.period = period2; _g.mode_no = mode_no2; _g.seed = 5; _g.reset_seed(6)",
+  also=[G + "Fourier.period.setter", G + "Fourier.mode_no.setter", G + "Fourier.seed.setter", G + "Fourier.reset_seed"])
 P(G + "RandMeth.update", "model anis array", "anis = A([0.5])\n_m = gs.Gaussian(dim=2, anis=anis)\nstored_anis = _m.anis\n_g = gs.field.generator.RandMeth(gs.Gaussian(dim=2), mode_no=20, seed=1)", "_g.update(_m, 5)")
 
 K = "krige/base.py:Krige."
@@ -261,3 +271,181 @@ for _nug in ("0.0", "0.1"):
     P(C + "__call__", "nugget=%s,structured" % _nug, (_CS % _nug).replace(_GRID, "pos = (A(np.arange(4.0)), A(np.arange(3.0)))\n"), "_cs(pos, mesh_type='structured'); _cs.structured(pos, seed=3)")
 P(C + "set_pos", "", _CS % "0.0" + "returned_c = _cs(pos)\npos2 = A(rng.uniform(0, 10, (2, 5)))", "_cs.set_pos(pos2); _cs()")
 P(C + "__init__", "", _COND + "_k = gs.krige.Krige(gs.Gaussian(dim=2, len_scale=3), cond_pos, cond_val)\nstored_cond_val = _k.cond_val", "gs.CondSRF(_k, seed=4, mode_no=20)")
+
+# =============================================================================================
+# CovModel
+CM = "covmodel/base.py:CovModel."
+_M = {
+    "gauss3d rot": "gs.Gaussian(dim=3, var=2, len_scale=3, anis=[0.5, 0.2], angles=[0.3, 0.2, 0.1], nugget=0.1)",
+    "matern2d": "gs.Matern(dim=2, var=2, len_scale=3, nu=1.5, anis=0.5, angles=0.4)",
+    "latlon": "gs.Exponential(latlon=True, len_scale=700, geo_scale=gs.KM_SCALE)",
+    "latlon temporal": "gs.Exponential(latlon=True, temporal=True, len_scale=700, anis=0.5, geo_scale=gs.KM_SCALE)",
+    "tplstable 1d": "gs.TPLStable(dim=1, len_scale=4, hurst=0.6, alpha=1.3)",
+}
+_DIM = {"gauss3d rot": 3, "matern2d": 2, "latlon": 2, "latlon temporal": 3, "tplstable 1d": 1}
+for _o, _mdl in _M.items():
+    _d = _DIM[_o]
+    _mk = "_m = %s\n" % _mdl
+    _p = "pos = A(rng.uniform(-50, 50, (%d, 9)))\n" % _d
+    P(CM + "isometrize", _o, _mk + _p, "_m.isometrize(pos)")
+    _pi = "pos = A(rng.uniform(-1, 1, (%d, 9)))\n" % (_d if "latlon" not in _o else _d + 1)
+    P(CM + "anisometrize", _o, _mk + _pi, "_m.anisometrize(pos)")
+    if "latlon" not in _o:
+        P(CM + "cov_spatial", _o, _mk + _p, "_m.cov_spatial(pos); _m.vario_spatial(pos); _m.cor_spatial(pos)", also=[CM + "vario_spatial", CM + "cor_spatial"])
+        P(CM + "main_axes", _o, _mk + "stored_angles = _m.angles\nstored_anis = _m.anis", "_m.main_axes()")
+        P(CM + "vario_axis", _o, _mk + "r = A(rng.uniform(0, 9, 8))", "[(_m.vario_axis(r, a), _m.cov_axis(r, a), _m.cor_axis(r, a)) for a in range(_m.dim)]", also=[CM + "cov_axis", CM + "cor_axis"])
+    else:
+        P(CM + "vario_yadrenko", _o, _mk + "zeta = A(rng.uniform(0, 3, 8))", "_m.vario_yadrenko(zeta); _m.cov_yadrenko(zeta); _m.cor_yadrenko(zeta)", also=[CM + "cov_yadrenko", CM + "cor_yadrenko"])
+    P(CM + "vario_nugget", _o, _mk + "r = A(rng.uniform(0, 9, 8))\nr[0] = 0.0", "_m.variogram(r); _m.covariance(r); _m.correlation(r); _m.cor(r); _m.vario_nugget(r); _m.cov_nugget(r); _m.pykrige_vario(None, r)", also=[CM + "cov_nugget", CM + "pykrige_vario"])
+    P(CM + "spectrum", _o, _mk + "k = A(rng.uniform(0.01, 2, 6))", "_m.spectrum(k); _m.spectral_density(k); _m.spectral_rad_pdf(k); _m.ln_spectral_rad_pdf(k)", tier="thorough" if "tpl" in _o else "quick", also=[CM + "spectral_density", CM + "spectral_rad_pdf", CM + "ln_spectral_rad_pdf", "covmodel/tools.py:spectral_rad_pdf"])
+for _cls in ("Gaussian", "Exponential", "Matern", "Integral", "Stable", "Rational", "Cubic", "Linear", "Circular",
+             "Spherical", "HyperSpherical", "SuperSpherical", "JBessel", "TPLGaussian", "TPLExponential", "TPLSimple"):
+    P("covmodel/models.py:%s.cor" % _cls if not _cls.startswith("TPL") else "covmodel/tpl_models.py:%s.cor" % _cls,
+      "cor/variogram", "_m = gs.%s(dim=2, len_scale=2.0)\nh = A(rng.uniform(0, 3, 8))\nh[0] = 0.0" % _cls,
+      "_m.cor(h); _m.correlation(h); _m.variogram(h); _m.covariance(h)" + ("; _m.spectral_density(h)" if _cls in ("Gaussian", "Exponential", "Matern", "Integral", "HyperSpherical", "JBessel") else ""),
+      tier="quick",
+      also=(["covmodel/tpl_models.py:%s.correlation" % _cls, "covmodel/tpl_models.py:TPLCovModel.cor", "covmodel/tpl_models.py:TPLCovModel.correlation"] if _cls.startswith("TPL") else ["covmodel/models.py:%s.spectral_density" % _cls]))
+for _cls in ("Gaussian", "Exponential"):
+    P("covmodel/models.py:%s.spectral_rad_cdf" % _cls, "cdf/ppf", "_m = gs.%s(dim=2, len_scale=2.0)\nr = A(rng.uniform(0.01, 3, 8))\nu = A(rng.uniform(0.01, 0.99, 8))" % _cls,
+      "_m.spectral_rad_cdf(r); _m.spectral_rad_ppf(u); _m.spectral_density(r)", also=["covmodel/models.py:%s.spectral_rad_ppf" % _cls])
+P(CM + "__init__", "anis/angles/len_scale arrays", "anis = A([0.5, 0.25])\nangles = A([0.1, 0.2, 0.3])\nlen_scale = A([4.0, 2.0, 1.0])", "gs.Gaussian(dim=3, anis=anis, angles=angles); gs.Gaussian(dim=3, len_scale=len_scale, angles=angles)")
+P(CM + "__init__", "latlon, anis array", "anis = A([0.5, 0.25])", "gs.Gaussian(latlon=True, anis=anis)")
+P(CM + "__init__", "latlon+temporal, anis array", "anis = A([0.5, 0.25, 0.75])", "gs.Gaussian(latlon=True, temporal=True, anis=anis)")
+P(CM + "__init__", "temporal, angles array", "angles = A([0.1, 0.2, 0.3])\nanis = A([0.5, 0.25])", "gs.Gaussian(temporal=True, spatial_dim=2, angles=angles, anis=anis)")
+P(CM + "anis.setter", "plain", "anis = A([0.5, 0.25])\n_m = gs.Gaussian(dim=3)", "_m.anis = anis; _m.len_scale = 3.0; _m.dim = 2; _m.dim = 3")
+P(CM + "anis.setter", "latlon", "anis = A([0.5, 0.25])\n_m = gs.Gaussian(latlon=True)", "_m.anis = anis")
+P(CM + "anis.setter", "stored anis returned earlier", "_m = gs.Gaussian(dim=3, anis=[0.5, 0.25], angles=[0.1, 0.2, 0.3])\nreturned_anis = _m.anis\nreturned_angles = _m.angles", "_m.len_scale = 4.0; _m.integral_scale = 2.0; _m.dim = 3; _m.var = 2.0; _m.nugget = 0.1")
+P(CM + "anis.setter", "stored anis, latlon+temporal", "_m = gs.Gaussian(latlon=True, temporal=True, anis=[1, 1, 0.5])\nreturned_anis = _m.anis", "_m.len_scale = 4.0; _m.integral_scale = 2.0")
+P(CM + "angles.setter", "", "angles = A([0.1, 0.2, 0.3])\n_m = gs.Gaussian(dim=3)", "_m.angles = angles")
+P(CM + "angles.setter", "temporal", "angles = A([0.1, 0.2, 0.3])\n_m = gs.Gaussian(temporal=True, spatial_dim=2)", "_m.angles = angles")
+P(CM + "len_scale.setter", "array", "len_scale = A([4.0, 2.0, 1.0])\n_m = gs.Gaussian(dim=3)", "_m.len_scale = len_scale")
+P(CM + "set_arg_bounds", "", "_b = A([0.0, 10.0])\nbounds = _b\n_m = gs.Gaussian(dim=2)", "_m.set_arg_bounds(var=list(bounds) + ['oo'])")
+P(CM + "percentile_scale", "", "_m = gs.Gaussian(dim=2)\nstored_anis = _m.anis", "_m.percentile_scale(0.8); _m.calc_integral_scale()", also=["covmodel/tools.py:percentile_scale"])
+P(CM + "__eq__", "", "_m = gs.Gaussian(dim=3, anis=[0.5, 0.25])\n_n = gs.Gaussian(dim=3, anis=[0.5, 0.25])\nstored_a = _m.anis\nstored_b = _n.anis", "_m == _n")
+
+F = "covmodel/fit.py:"
+_XY = "x_data = A(np.linspace(0.5, 9.5, 10))\ny_data = A(1.2 * (1 - np.exp(-(x_data / 3) ** 2)) + 0.05)\n"
+P(F + "fit_variogram", "plain", _XY, "gs.Gaussian(dim=2).fit_variogram(x_data, y_data)")
+P(F + "fit_variogram", "weights array", _XY + "weights = A(np.linspace(1, 2, 10))", "gs.Gaussian(dim=2).fit_variogram(x_data, y_data, weights=weights, return_r2=True)")
+P(F + "fit_variogram", "weights inv, sill", _XY, "gs.Gaussian(dim=2).fit_variogram(x_data, y_data, weights='inv', sill=1.3, nugget=False)")
+P(F + "fit_variogram", "directional, anis fitted", _XY + "y_data = A(np.stack([y_data, 0.9 * y_data]))\nweights = A(np.linspace(1, 2, 10))", "gs.Gaussian(dim=2).fit_variogram(x_data, y_data, weights=weights, return_r2=True)")
+P(F + "fit_variogram", "anis array given", _XY + "anis = A([0.5])", "gs.Gaussian(dim=2).fit_variogram(x_data, y_data, anis=anis)")
+P(F + "fit_variogram", "anis array given, latlon model", "x_data = A(np.linspace(50, 950, 10))\ny_data = A(1.2 * (1 - np.exp(-(x_data / 300) ** 2)) + 0.05)\nanis = A([0.5, 0.25])", "gs.Gaussian(latlon=True, geo_scale=gs.KM_SCALE).fit_variogram(x_data, y_data, anis=anis)")
+P(F + "fit_variogram", "latlon model", "x_data = A(np.linspace(50, 950, 10))\ny_data = A(1.2 * (1 - np.exp(-(x_data / 300) ** 2)) + 0.05)", "gs.Gaussian(latlon=True, geo_scale=gs.KM_SCALE).fit_variogram(x_data, y_data)")
+P(F + "fit_variogram", "init_guess dict with anis array", _XY + "y_data = A(np.stack([y_data, 0.9 * y_data]))\n_a = A([0.7])\nanis_guess = _a", "gs.Gaussian(dim=2).fit_variogram(x_data, y_data, init_guess={'anis': anis_guess, 'default': 'current'})")
+P(F + "fit_variogram", "Matern, opt arg, loss", _XY, "gs.Matern(dim=2).fit_variogram(x_data, y_data, loss='linear', max_eval=200, nu=False)")
+P(F + "fit_variogram", "module function", _XY, "from gstools.covmodel.fit import fit_variogram as _fv\n_fv(gs.Exponential(dim=2), x_data, y_data, var=1.0)")
+P(CM + "fit_variogram", "returned estimate arrays", "pos = A(rng.uniform(0, 10, (2, 40)))\nfield = A(rng.normal(size=40))\nreturned_bins, returned_gamma = gs.vario_estimate(pos, field)", "gs.Gaussian(dim=2).fit_variogram(returned_bins, returned_gamma, nugget=False)")
+
+CT = "covmodel/tools.py:"
+P(CT + "set_len_anis", "plain", "len_scale = A([4.0])\nanis = A([0.5, 0.25])", "gs.covmodel.tools.set_len_anis(3, len_scale, anis)")
+P(CT + "set_len_anis", "latlon", "len_scale = A([4.0])\nanis = A([0.5, 0.25])", "gs.covmodel.tools.set_len_anis(3, len_scale, anis, latlon=True)")
+P(CT + "set_len_anis", "len_scale vector, latlon", "len_scale = A([4.0, 2.0, 1.0])\nanis = A([0.5, 0.25])", "gs.covmodel.tools.set_len_anis(3, len_scale, anis, latlon=True)")
+P(CT + "set_model_angles", "plain/temporal/latlon", "angles = A([0.1, 0.2, 0.3])", "gs.covmodel.tools.set_model_angles(3, angles); gs.covmodel.tools.set_model_angles(3, angles, temporal=True); gs.covmodel.tools.set_model_angles(3, angles, latlon=True)")
+P(CT + "rad_fac", "", "r = A(rng.uniform(0, 3, 8))", "[gs.covmodel.tools.rad_fac(d, r) for d in (1, 2, 3, 4)]")
+P(CT + "spectral_rad_pdf", "", "r = A(rng.uniform(0, 3, 8))\nr[0] = 0.0\n_m = gs.Gaussian(dim=2)", "gs.covmodel.tools.spectral_rad_pdf(_m, r)")
+P(CT + "check_arg_in_bounds", "", "val = A([0.5, 0.7])\n_m = gs.Gaussian(dim=3)", "gs.covmodel.tools.check_arg_in_bounds(_m, 'anis', val)")
+P(CT + "compare", "", "_m = gs.Gaussian(dim=3, anis=[0.5, 0.25])\nstored_anis = _m.anis\nstored_angles = _m.angles", "gs.covmodel.tools.compare(_m, gs.Gaussian(dim=3))")
+
+# =============================================================================================
+# tools
+TG = "tools/geometric.py:"
+P(TG + "generate_grid", "", "pos = (A(np.arange(5.0)), A(np.arange(4.0)))", "gs.tools.generate_grid(pos)")
+P(TG + "generate_grid", "single axis as 2d array", "pos = A(np.arange(5.0).reshape(1, 5))", "gs.tools.generate_grid(pos)")
+P(TG + "generate_st_grid", "unstructured", "pos = A(rng.uniform(0, 9, (2, 5)))\ntime = A(np.arange(3.0))", "gs.tools.generate_st_grid(pos, time)")
+P(TG + "generate_st_grid", "structured", "pos = (A(np.arange(5.0)), A(np.arange(4.0)))\ntime = A(np.arange(3.0))", "gs.tools.generate_st_grid(pos, time, mesh_type='structured')")
+P(TG + "rotated_main_axes", "", "angles = A([0.1, 0.2, 0.3])", "gs.tools.rotated_main_axes(3, angles)")
+P(TG + "matrix_rotate", "all matrix helpers", "angles = A([0.1, 0.2, 0.3])\nanis = A([0.5, 0.25])",
+  "from gstools.tools import geometric as _g\n_g.matrix_rotate(3, angles); _g.matrix_derotate(3, angles); _g.matrix_isotropify(3, anis); _g.matrix_anisotropify(3, anis); _g.matrix_isometrize(3, angles, anis); _g.matrix_anisometrize(3, angles, anis); _g.set_angles(3, angles); _g.set_anis(3, anis); _g.givens_rotation(3, (0, 1), angles[0])",
+  also=[TG + n for n in ("matrix_derotate", "matrix_isotropify", "matrix_anisotropify", "matrix_isometrize", "matrix_anisometrize", "set_angles", "set_anis", "givens_rotation")])
+P(TG + "pos2latlon", "", "pos = A(rng.normal(size=(3, 6)))\npos /= np.linalg.norm(pos, axis=0)", "gs.tools.geometric.pos2latlon(pos); gs.tools.geometric.pos2latlon(pos, radius=2.0)")
+P(TG + "pos2latlon", "temporal", "pos = A(rng.normal(size=(4, 6)))", "gs.tools.geometric.pos2latlon(pos, radius=10.0, temporal=True, time_scale=2.0)")
+P(TG + "latlon2pos", "", "latlon = A(np.stack([rng.uniform(-60, 60, 6), rng.uniform(-120, 120, 6)]))", "gs.tools.geometric.latlon2pos(latlon); gs.tools.geometric.latlon2pos(latlon, radius=6371.0)")
+P(TG + "latlon2pos", "temporal", "latlon = A(np.stack([rng.uniform(-60, 60, 6), rng.uniform(-120, 120, 6), np.arange(6.0)]))", "gs.tools.geometric.latlon2pos(latlon, temporal=True, time_scale=2.0)")
+P(TG + "ang2dir", "2d/3d", "angles = A([[0.1], [0.3]])\nangles3 = A([[0.1, 0.2], [0.3, 0.4]])", "gs.tools.ang2dir(angles, dim=2); gs.tools.ang2dir(angles3); gs.tools.ang2dir(A([0.2]), dim=2)")
+P(TG + "format_struct_pos_dim", "", "pos = (A(np.arange(5.0)), A(np.arange(4.0)))\npos1 = A(np.arange(5.0))", "gs.tools.geometric.format_struct_pos_dim(pos, 2); gs.tools.geometric.format_struct_pos_dim(pos1, 1)")
+P(TG + "format_struct_pos_shape", "", "pos = (A(np.arange(5.0)), A(np.arange(4.0)))\npos_sq = A(np.stack([np.arange(4.0), np.arange(4.0)]))\npos1 = A(np.arange(5.0))",
+  "from gstools.tools.geometric import format_struct_pos_shape as _f\n_f(pos, (5, 4)); _f(pos, (3, 5, 4), True); _f(pos_sq, (4, 4)); _f(pos_sq, (2, 4, 4), True); _f(pos1, (5,)); _f(pos1, (2, 5), True)")
+P(TG + "format_unstruct_pos_shape", "", "pos = A(rng.uniform(0, 9, (2, 6)))\npos1 = A(np.arange(5.0))",
+  "from gstools.tools.geometric import format_unstruct_pos_shape as _f\n_f(pos, (6,)); _f(pos, (3, 6), True); _f(pos1, (5,)); _f(pos1, (2, 5), True)")
+P(TG + "chordal_to_great_circle", "", "dist = A(rng.uniform(0, 2, 6))", "gs.tools.geometric.chordal_to_great_circle(dist, 1.0); gs.tools.geometric.great_circle_to_chordal(dist, 2.0)", also=[TG + "great_circle_to_chordal"])
+TM = "tools/misc.py:"
+P(TM + "eval_func", "array value", "func_val = A([1.0, 2.0])\npos = A(rng.uniform(0, 9, (2, 6)))", "gs.tools.misc.eval_func(func_val, pos, 2, value_type='vector'); gs.tools.misc.eval_func(A([3.0]), pos, 2, broadcast=True)")
+P(TM + "eval_func", "callable returning its argument", "pos = A(rng.uniform(0, 9, (2, 6)))", "gs.tools.misc.eval_func(lambda x, y: x, pos, 2)")
+P(TM + "eval_func", "structured", "pos = (A(np.arange(5.0)), A(np.arange(4.0)))", "gs.tools.misc.eval_func(lambda x, y: x + y, pos, 2, mesh_type='structured'); gs.tools.misc.eval_func(2.0, pos, 2, mesh_type='structured')")
+TS = "tools/special.py:"
+P(TS + "inc_gamma", "special functions", "x = A(rng.uniform(0.1, 3, 6))",
+  "from gstools.tools import special as _s\n_s.inc_gamma(1.5, x); _s.inc_gamma(-0.5, x); _s.inc_gamma(0.0, x); _s.inc_gamma_low(1.5, x); _s.exp_int(1.5, x); _s.inc_beta(1.5, 2.0, A(rng.uniform(0, 1, 6))); _s.tplstable_cor(x, 3.0, 0.5, 1.5); _s.tpl_exp_spec_dens(x, 2, 3.0, 0.5); _s.tpl_gau_spec_dens(x, 2, 3.0, 0.5); _s.confidence_scaling(0.9)",
+  also=[TS + n for n in ("inc_gamma_low", "exp_int", "inc_beta", "tplstable_cor", "tpl_exp_spec_dens", "tpl_gau_spec_dens", "confidence_scaling")])
+P("field/upscaling.py:var_coarse_graining", "", "point_volumes = A(rng.uniform(0.5, 2, 6))\n_m = gs.Gaussian(dim=2)", "gs.field.upscaling.var_coarse_graining(_m, point_volumes); gs.field.upscaling.var_no_scaling(_m, point_volumes)", also=["field/upscaling.py:var_no_scaling"])
+P("random/rng.py:RNG.sample_sphere", "", "size = np.array([4])", "gs.random.RNG(3).sample_sphere(3, 5); gs.random.RNG(3).sample_ln_pdf(lambda x: -x ** 2, 6)", also=["random/rng.py:RNG.sample_ln_pdf"])
+
+# =============================================================================================
+# alias-table probes: the FRESH / VIEW classification of gsvc/frames_tables.py that the gstools
+# sources rely on, checked with np.shares_memory on the aliasing layout
+#   (expression, claimed) with claimed in {"fresh", "view"}; x, y = float64 C-contiguous arrays,
+#   m = masked array, b = boolean mask
+TABLE_CHECKS = [
+    ("np.asarray(x, dtype=np.double)", "view"), ("np.asanyarray(x)", "view"),
+    ("np.atleast_1d(x)", "view"), ("np.atleast_2d(x)", "view"), ("np.reshape(x, x.shape)", "view"),
+    ("x.reshape(-1)", "view"), ("x.ravel()", "view"), ("np.squeeze(x)", "view"), ("x.T", "view"),
+    ("x.swapaxes(0, 1)", "view"), ("x[1:]", "view"), ("x[0]", "view"), ("x[:, :2]", "view"),
+    ("x[..., None]", "view"), ("np.ma.array(x)", "view"), ("np.ma.array(x, ndmin=3, dtype=np.double)", "view"),
+    ("np.ma.asarray(x)", "view"), ("np.ma.array(m)", "view"), ("np.ma.array(m).mask", "mask-view"),
+    ("np.ma.getmaskarray(m)", "mask-view"), ("np.ma.array(x).filled()", "view"), ("np.array(x, copy=False)", "view"),
+    ("np.array(x, dtype=np.double, copy=None)", "view"), ("np.broadcast_to(x, x.shape)", "view"),
+    ("x.real", "view"), ("np.diagonal(x)", "view"), ("x.flat", "flat"),
+    ("np.array(x)", "fresh"), ("np.array(x, dtype=np.double)", "fresh"), ("np.array(x, ndmin=2, dtype=np.double)", "fresh"),
+    ("x.copy()", "fresh"), ("np.ma.array(x, copy=True)", "fresh"), ("np.ma.array(m, ndmin=2, dtype=np.double, copy=True)", "fresh+mask"),
+    ("x.astype(np.double)", "fresh"), ("x + 0", "fresh"), ("x * 1.0", "fresh"), ("-x", "fresh"), ("np.abs(x)", "fresh"),
+    ("np.add(x, 0)", "fresh"), ("np.divide(x, 1.0)", "fresh"), ("np.multiply(x, 1)", "fresh"), ("np.power(x, 1)", "fresh"),
+    ("x[b]", "fresh"), ("x[[0, 1]]", "fresh"), ("x[:, b[0]]", "fresh"), ("x[np.array([0, 1])]", "fresh"),
+    ("np.concatenate((x, y))", "fresh"), ("np.concatenate((x,))", "fresh"), ("np.stack([x])", "fresh"),
+    ("np.vstack((x,))", "fresh"), ("np.pad(x.ravel(), (0, 0), 'constant', constant_values=0.0)", "fresh"),
+    ("np.pad(x.ravel(), (0, 0), 'edge')", "fresh"), ("np.tile(x, 1)", "fresh"), ("np.repeat(x, 1)", "fresh"),
+    ("np.dot(np.eye(x.shape[0]), x)", "fresh"), ("np.matmul(np.eye(x.shape[0]), x)", "fresh"),
+    ("np.full_like(x, 0.0)", "fresh"), ("np.zeros_like(x)", "fresh"), ("np.empty_like(x)", "fresh"),
+    ("np.sort(x)", "fresh"), ("np.maximum(x, -np.inf)", "fresh"), ("np.minimum(x, np.inf)", "fresh"),
+    ("np.asarray(np.meshgrid(*x, indexing='ij'), dtype=np.double)", "fresh"), ("np.meshgrid(x[0], x[1], indexing='ij')[0]", "fresh"),
+    ("np.asarray([x[0], x[1]], dtype=np.double)", "fresh"), ("np.asarray((x[0],), dtype=np.double)", "fresh"),
+    ("np.deg2rad(x)", "fresh"), ("np.rad2deg((x[0], x[1]), dtype=np.double)", "fresh"), ("np.exp(x)", "fresh"),
+    ("np.log(np.abs(x) + 1)", "fresh"), ("np.sqrt(np.abs(x))", "fresh"), ("np.sign(x)", "fresh"),
+    ("np.logical_not(b)", "fresh"), ("np.logical_or(b, b)", "fresh"), ("np.invert(b)", "fresh"), ("np.isnan(x)", "fresh"),
+    ("np.isclose(x, 0)", "fresh"), ("np.linalg.norm(x, axis=0)", "fresh"), ("np.insert(x.ravel(), 0, 1.0)", "fresh"),
+    ("np.diag(x.ravel())", "fresh"), ("np.mean(x, axis=1)", "fresh"), ("np.prod(x, axis=1)", "fresh"),
+    ("np.cos(x)", "fresh"), ("np.arctan2(x, x)", "fresh"), ("np.arcsin(np.clip(x, -1, 1))", "fresh"),
+    ("np.ones_like(x)", "fresh"), ("np.expm1(x)", "fresh"), ("np.log1p(np.abs(x))", "fresh"),
+    ("__import__('scipy.special').special.erf(x)", "fresh"), ("__import__('scipy.linalg').linalg.pinv(np.eye(3))", "fresh"),
+    ("__import__('scipy.spatial.distance').spatial.distance.cdist(x.T, x.T)", "fresh"),
+    ("__import__('copy').copy(x)", "fresh"), ("__import__('copy').deepcopy(x)", "fresh"),
+    ("m.filled()", "fresh"), ("m[:, b[0]].filled()", "fresh"), ("np.ma.array(x, mask=b)", "mask-kw"),
+]
+TABLE_PROBE = {
+    "id": "alias-table", "entry": "<alias-table>", "opts": "np.shares_memory on float64 C-contiguous (3,3)",
+    "setup": "_checks = %r\n" % (TABLE_CHECKS,),
+    "call": (
+        "_bad = []\n"
+        "for _e, _c in _checks:\n"
+        "    x = A(rng.normal(size=(3, 3))); y = A(rng.normal(size=(3, 3)))\n"
+        "    b = np.array([[True, False, True]] * 3)\n"
+        "    m = np.ma.array(A(rng.normal(size=(3, 3))), mask=b.copy())\n"
+        "    try:\n"
+        "        _r = eval(_e)\n"
+        "    except Exception as _ex:\n"
+        "        _bad.append((_e, 'error ' + repr(_ex))); continue\n"
+        "    if _c == 'flat':\n"
+        "        continue\n"
+        "    if _c == 'mask-view':\n"
+        "        _sh = np.shares_memory(np.asarray(_r), np.ma.getmaskarray(m)) or np.shares_memory(np.asarray(_r), m.mask)\n"
+        "        continue\n"
+        "    if _c == 'mask-kw':\n"
+        "        continue\n"
+        "    _src = [x, y, np.ma.getdata(m), np.ma.getmaskarray(m), b]\n"
+        "    _parts = [np.ma.getdata(_r), np.ma.getmaskarray(_r)] if isinstance(_r, np.ma.MaskedArray) else [np.asarray(_r)]\n"
+        "    _sh = any(np.shares_memory(p, s) for p in _parts for s in _src)\n"
+        "    if _c.startswith('fresh') and _sh:\n"
+        "        _bad.append((_e, 'claimed fresh but shares memory'))\n"
+        "if _bad:\n"
+        "    raise AssertionError('alias table refuted: %r' % (_bad,))\n"),
+    "tier": "quick",
+}
